@@ -1,2 +1,5 @@
 """Contract-based verification machinery for fferflo/einx (see /verif/DESIGN.md)."""
-REPO = "/repo"
+import os
+
+# the tree under verification; EINX_VERIF_REPO is only used by tools/mutation_matrix.sh to point the checks at a scratch worktree
+REPO = os.environ.get("EINX_VERIF_REPO", "/repo")
